@@ -25,6 +25,8 @@ GROUPS = {
     "guards_tank": ("Poupool.Properties.DecisionsTie.Guards", ["tank_is_low", "tank_is_high", "pump_stopped_in_standby"], ["tankIsLow", "tankIsHigh", "pumpStoppedInStandby"]),
     "guards_swim": ("Poupool.Properties.DecisionsTie.Guards", ["swim_is_wintering", "swim_allow_swim"], ["swimIsWintering", "swimAllowSwim"]),
     "guards_heating": ("Poupool.Properties.DecisionsTie.Guards", ["heating_allow", "heating_ready"], ["heatingAllow", "heatingReady"]),
+    "eco_polls": ("Poupool.Properties.DecisionsTie.Eco", ["eco_waiting_poll", "eco_normal_poll", "eco_tank_poll", "eco_polls_wash_iff_due", "eco_polls_rearm", "ecoStep_waiting", "ecoStep_normal", "ecoStep_tank"],
+                  ["ecoNormalPoll", "ecoWaitingPoll", "ecoTankPoll"]),
     "heating": ("Poupool.Properties.DecisionsTie.Heating", ["heating_waiting_poll", "heating_asks_only_when_due", "heating_heating_poll", "heating_reads_the_reader"], ["heatingReadTemperature", "heatingWaitingPoll", "heatingHeatingPoll"]),
 }
 
